@@ -277,3 +277,6 @@ def check(ctx: Ctx) -> None:
     from .C03 import check_transition_complete
     check_transition_complete(ctx, "C07.h")
 
+    # after the RemoteError was delivered the channel is at EOF for every later / other receiver: the marker goes back
+    from .C03 import check_endmarker_requeue
+    check_endmarker_requeue(ctx, "C07.i")
